@@ -38,9 +38,13 @@ PROVED = ['mul_with_mod_spec [P]: for f canonical of degree n, a, b canonical of
           'inv_diff_dual_mx [P]: the same as v * Tr = l * c with Tr_ij = trace(w_i w_j); inv_diff_scaled_inverse [P]: N is the normal form of an integer matrix Int with Int Tr = Tr Int = l > 0; '
           'trace_mul_form [P]: trace(mul v w) = sum_ij v_i w_j Tr_ij',
           'get_mult_table_total / get_mult_table_iff [P]: for canonical f of degree n and a full-rank n x n rational basis b (det != 0), Order::get_mult_table returns a table IF AND ONLY IF '
-          'every product b_i b_j mod f has integer coordinates on b (the Z-span of b is closed under multiplication); the function has no unbounded loop, so otherwise it panics (integrality assertion)']
-NOT_PROVED = ['totality of get_inv_diff (it returns iff the trace form is non-degenerate; inv_diff_dual is a partial-correctness statement)',
-              'to_z_basis with rational coordinates (oracle on every case)']
+          'every product b_i b_j mod f has integer coordinates on b (the Z-span of b is closed under multiplication); the function has no unbounded loop, so otherwise it panics (integrality assertion)',
+          'get_inv_diff_total / get_inv_diff_returns_iff [P]: on every n x n x n table (n >= 1, nothing else assumed) get_inv_diff returns some (l, N) if det Tr != 0 '
+          '(Tr_ij = trace(w_i w_j)) and panics (unwrap of Err(MatrixNotInvertible)) if det Tr = 0; no other outcome',
+          'to_z_basis_spec [P]: for an n x n rational basis b with det != 0 and every coefficient list a of length <= n, to_z_basis returns a vector x of length n with '
+          'sum_k x_k b_k = a, and x is the only such vector of length n; to_z_basis_ok [P] (partial correctness, no determinant hypothesis); '
+          'to_z_basis_singular [P]: on a singular n x n basis it panics (expect on Err(MatrixNotInvertible))']
+NOT_PROVED = []
 ASSUMPTIONS = ['solve_linear_system / determinant / inv are used through the C18 theorems of area/linalg (solve_ok) merged into this branch',
                'Algebraic.as_coefs with the zero polynomial is not run (the frozen model would build a list of usize::MAX entries; the code aborts with capacity overflow)']
 
@@ -56,7 +60,7 @@ CLAIM = dict(
          '(Res = MathComp\'s Sylvester determinant; the link from the model\'s resultant routines to that determinant is C10\'s). The model (coq/Model/Algebraic.v, MultTable.v, Order.v) reproduces '
          'the routines statement by statement including assertions, unwraps and bounds checks; it is tied to /repo by running the extracted model and impl_svc on '
          'the same inputs.',
-    note='get_inv_diff: the returned (l, N) is proved to be the dual lattice of the trace form (inv_diff_dual), for every well-shaped table. Not proved (checked by independent Fraction oracles on every explored input): to_z_basis with rational coordinates. '
+    note='get_inv_diff: the returned (l, N) is proved to be the dual lattice of the trace form (inv_diff_dual), for every well-shaped table, and it returns iff the trace form is non-degenerate (get_inv_diff_total). to_z_basis (rational coordinates) returns the unique coordinate vector on every full-rank basis (to_z_basis_spec; the Fraction oracle on every explored input is kept). '
          'inv_spec is stated for every well-shaped table: that b / |norm a| is the inverse of a needs w_0 = 1 and associativity (inv_cancel), which the theorem takes as hypotheses. '
          'Statements about tables are partial-correctness statements (they assume get_mult_table returned).',
     ref='DESIGN.md section 4, C14')
